@@ -32,3 +32,24 @@ CHECKS['C08'] = dict(
     text='Decides for all ~350 explicit-position emissions of the definitions that the looked-up map entry is the aligned slot; handlers are decided by exhaustive decision tables. Does not decide the source-file stack nor elision comma runs.',
     ref='DESIGN.md section 3 C08',
     note='Trusted: action interpreter, skeleton alignment, abstract evaluator; walker.walk semantics (digest-guarded by C01/C02).')
+
+CHECKS['C16'] = dict(
+    technique='static analysis: attribute typing from abstract interpretation of the parser actions vs the shape of each class\'s children(); abstract evaluation of Node.__iter__ / Walker.walk / filter / extract on abstract trees',
+    text='Decides children() completeness for every node class the parser builds (53 classes, 177 attribute obligations, exhaustive) and the traversal discipline of the generic walkers on a family of abstract trees.',
+    ref='DESIGN.md section 3 C16',
+    note='Trusted: action interpreter typing (E4), abstract evaluator. Trees built by hand with attributes the parser never sets are outside the quantifier.')
+CHECKS['C14'] = dict(
+    technique='static analysis: write-site enumeration and classification by the root of the base expression (effect/ownership analysis), per-call-state instantiation rule, def-use checks of the shortcut factories',
+    text='Decides that no write of the unparsing code can reach the tree or shared tables, that stateful handler classes are created per print call, and that str(node) / es5.pretty_print / es5.minify_print are straight compositions. The equality of fragment sequences follows from the absence of surviving state; it is not compared as values.',
+    ref='DESIGN.md section 3 C14',
+    note='Trusted: CPython ast; conservative alias classification (any parameter may alias the tree).')
+CHECKS['C15'] = dict(
+    technique='static analysis: effect analysis of the parse path (no global / class-level / default-argument writes), per-call construction of Parser/Lexer/ply objects, initialisation of every instance attribute read',
+    text='Decides the absence of shared mutable state in the repository code on the parse path (379 write sites, 228 attribute reads). ply internals are assumed.',
+    ref='DESIGN.md section 3 C15',
+    note='Trusted: CPython ast; ply builds its objects per yacc()/lex() call and shares table modules read-only.')
+CHECKS['C18'] = dict(
+    technique='static analysis: acquire/release pairing over the statement structure of io.read / io.write with exception edges (must-pass-through finally, registration iff acquisition, no swallowing handlers)',
+    text='Decides the stream closing discipline on all paths including exceptional ones. Text/URL equality clauses are runtime data and not decided.',
+    ref='DESIGN.md section 3 C18',
+    note='Trusted: CPython ast. The helpers are recognised by shape; an unrecognised restructuring stops the check with ANALYSIS-ERROR.')
